@@ -238,7 +238,16 @@ inline Rational ratFromString(const char* desc)
          else
             res = Rational(s);
 
-         res *= pow(10, mult);
+         // scale by 10^mult exactly: pow(10, mult) in double is inexact for mult < 0 or mult > 22 and infinite for mult > 308
+         if(mult != 0)
+         {
+            Integer scale = boost::multiprecision::pow(Integer(10), (unsigned int)(mult < 0 ? -mult : mult));
+
+            if(mult > 0)
+               res *= Rational(scale);
+            else
+               res /= Rational(scale);
+         }
       }
    }
 
